@@ -29,6 +29,7 @@ from lv.harness.sched import wrap_async
 from liquid2 import CachingChoiceLoader
 from liquid2 import CachingDictLoader
 from liquid2 import CachingFileSystemLoader
+from liquid2 import CachingLoaderMixin
 from liquid2 import ChoiceLoader
 from liquid2 import DictLoader
 from liquid2 import FileSystemLoader
@@ -40,6 +41,20 @@ CFG = Cfg(
 )
 LOADERS = ["dict", "dict", "cdict", "cdict-ns", "choice", "cchoice", "fs", "cfs"]
 SHM = "/dev/shm" if os.path.isdir("/dev/shm") else None
+
+
+class SuspendingDictLoader(DictLoader):
+    """A dict loader whose async source lookup really suspends (one await point per load)."""
+
+    async def get_source_async(self, env: Any, template_name: str, *, context: Any = None, **kwargs: Any) -> Any:
+        await sched.Yield()
+        return self.get_source(env, template_name, context=context, **kwargs)
+
+
+class CachingSuspendingDictLoader(CachingLoaderMixin, SuspendingDictLoader):
+    def __init__(self, templates: dict[str, str], *, namespace_key: str = "", capacity: int = 300) -> None:
+        CachingLoaderMixin.__init__(self, auto_reload=True, namespace_key=namespace_key, capacity=capacity)
+        SuspendingDictLoader.__init__(self, templates)
 
 
 def err_outcome(err: LiquidError) -> tuple[str, str, Any, Any]:
@@ -73,10 +88,13 @@ def sched_case(draw: Any) -> dict[str, Any]:
         "progs": progs,
         "layout": draw(st.integers(0, 3)),
         "data": [draw(data_strategy()) for _ in range(n)],
-        "loader": draw(st.sampled_from(["dict", "cdict", "cdict-ns", "cchoice"])),
-        "mask": draw(st.integers(1, 15)) | 1,
+        "loader": draw(st.sampled_from(["dict", "cdict", "cdict-ns", "cchoice", "adict", "acdict", "acdict", "acdict-ns"])),
+        "mask": draw(st.integers(0, 15)),
         "schedule": draw(st.lists(st.integers(0, 5), max_size=40)),
         "share_template": same and draw(st.booleans()),
+        # tasks either render a template made with from_string, or first fetch it with
+        # get_template_async(name, globals=...) - each task with its own globals
+        "via": draw(st.sampled_from(["from_string", "get_template", "get_template"])),
     }
 
 
@@ -126,6 +144,12 @@ class C03(Prop):
             return ChoiceLoader([DictLoader({k: templates[k] for k in half}), DictLoader(dict(templates))])
         if kind == "cchoice":
             return CachingChoiceLoader([DictLoader({}), DictLoader(dict(templates))], capacity=2)
+        if kind == "adict":
+            return SuspendingDictLoader(dict(templates))
+        if kind == "acdict":
+            return CachingSuspendingDictLoader(dict(templates), capacity=3)
+        if kind == "acdict-ns":
+            return CachingSuspendingDictLoader(dict(templates), namespace_key="tenant", capacity=3)
         if tmp:
             d = tmp[0]  # one directory per case: paths must be equal for the sync and async twins
         else:
@@ -283,16 +307,34 @@ class C03(Prop):
         for p in progs:
             for k, v in p["templates"].items():
                 templates.setdefault(k, to_source(v, lay))
-        srcs = [to_source(p["main"], lay) for p in progs]
+        srcs = [to_source(p["main"], lay) + "{{ gv }}" for p in progs]
+        via = case.get("via", "from_string")
+        names = [f"__main{0 if case['share_template'] else i}.html" for i in range(len(srcs))]
+        if via == "get_template":
+            for nm, s_ in zip(names, srcs):
+                templates.setdefault(nm, s_)
+
+        class _Made:
+            """Something with render_async(**data): a Template, or fetch-then-render."""
+
+            def __init__(self, env: Any, i: int) -> None:
+                self.env, self.i = env, i
+
+            async def render_async(self, **data: Any) -> str:
+                t = await self.env.get_template_async(names[self.i], globals={"gv": f"G{self.i}"},
+                                                      tenant=data.get("tenant"))
+                return await t.render_async(**data)
 
         def build() -> tuple[Any, list[Any]]:
             env = make_env(shopify=True, loader=self._loader(kind, templates, tmp))
             tmpls: list[Any] = []
             for i, s in enumerate(srcs):
-                if case["share_template"] and i > 0:
+                if via == "get_template":
+                    tmpls.append(_Made(env, i))
+                elif case["share_template"] and i > 0:
                     tmpls.append(tmpls[0])
                 else:
-                    tmpls.append(env.from_string(s))
+                    tmpls.append(env.from_string(s, globals={"gv": f"G{i}"}))
             return env, tmpls
 
         def datas() -> list[dict[str, Any]]:
